@@ -128,6 +128,9 @@ type Sess struct {
 	havocCalls map[string]bool
 	deadCands map[string]bool
 	preDead map[string]bool
+	mapIters map[*ssa.Range]*mapIter
+	absStr bool
+	epochTop map[string]string
 	axioms []string
 	edgeDead map[[2]int]bool // path mode: edges (from,to block index) not on the path
 	axiomsUsed []string
@@ -207,8 +210,50 @@ func (s *Sess) baseTerm(base, key, sort string) string {
 	if !s.ufDecl[n] {
 		s.ufDecl[n] = true
 		s.emitDecl(fmt.Sprintf("(declare-const %s %s)", n, sort))
+		top := s.epochTop[base]
+		if top == "" {
+			top = "top0"
+		}
+		s.wfRegion(n, key, top)
 	}
 	return n
+}
+
+// wfRegion states the heap type invariant for a region version that is not derived from another
+// by stores: every reference stored in it is allocated (below top).
+func (s *Sess) wfRegion(term, key, top string) {
+	ri, ok := regInfo.Load(key)
+	if !ok {
+		return
+	}
+	r := ri.(regionInfo)
+	T := r.typ
+	if r.kind == 'M' {
+		T = r.m.Elem()
+	}
+	if T == nil {
+		return
+	}
+	var f func(x string) string
+	switch T.Underlying().(type) {
+	case *types.Pointer, *types.Map, *types.Signature, *types.Chan:
+		f = func(x string) string { return fmt.Sprintf("(< %s %s)", x, top) }
+	case *types.Slice:
+		f = func(x string) string {
+			return fmt.Sprintf("(and (< (s.base %s) %s) (<= 0 (s.base %s)) (<= 0 (s.off %s)) (<= 0 (s.len %s)) (<= (s.len %s) (s.cap %s)))", x, top, x, x, x, x, x)
+		}
+	default:
+		return
+	}
+	switch r.kind {
+	case 'C':
+		s.assume(fmt.Sprintf("(forall ((o Int)) (! %s :pattern ((select %s o))))", f(fmt.Sprintf("(select %s o)", term)), term))
+	case 'E':
+		s.assume(fmt.Sprintf("(forall ((o Int) (i Int)) (! %s :pattern ((select (select %s o) i))))", f(fmt.Sprintf("(select (select %s o) i)", term)), term))
+	case 'M':
+		ks := s.tc.sortOf(r.m.Key())
+		s.assume(fmt.Sprintf("(forall ((o Int) (k %s)) (! %s :pattern ((select (select %s o) k))))", ks, f(fmt.Sprintf("(select (select %s o) k)", term)), term))
+	}
 }
 
 func (s *Sess) region(st *State, key, sort string) string {
@@ -253,6 +298,7 @@ func (s *Sess) havocRegion(st *State, key string) {
 		return
 	}
 	st.heap[key] = s.fresh("Hv:"+key, sort)
+	s.wfRegion(st.heap[key], key, st.top)
 }
 
 func (s *Sess) fieldSort(f *types.Var) string { return "(Array Int " + s.tc.sortOf(f.Type()) + ")" }
@@ -607,6 +653,10 @@ func (s *Sess) loopPos(h *ssa.BasicBlock) int {
 	li := s.loops[h]
 	for b := range li.blocks {
 		for _, in := range b.Instrs {
+			switch in.(type) {
+			case *ssa.Phi, *ssa.DebugRef:
+				continue // a phi carries the position of the variable's declaration, not of the loop
+			}
 			if p := in.Pos(); p.IsValid() && (best == 0 || p < best) {
 				best = p
 			}
@@ -615,7 +665,7 @@ func (s *Sess) loopPos(h *ssa.BasicBlock) int {
 	if best == 0 {
 		return 1<<40 + h.Index
 	}
-	return int(best)
+	return int(best)*4096 + h.Index%4096
 }
 
 func (s *Sess) rpo() []*ssa.BasicBlock {
@@ -758,6 +808,8 @@ func (s *Sess) run() {
 		s.deadCands = map[string]bool{}
 	}
 	s.paramVals = map[string]Val{}
+	s.mapIters = map[*ssa.Range]*mapIter{}
+	s.epochTop = map[string]string{}
 	s.tc = newTypeCtx(s.emitDecl)
 	s.emitDecl("(declare-const top0 Int)")
 	s.assume("(< 0 top0)")
@@ -773,8 +825,17 @@ func (s *Sess) run() {
 	if s.eng.nilcheckAll {
 		s.nilcheck = true
 	}
+	s.absStr = true
+	if s.ct != nil && s.ct.Opts["strings"] == "smt" {
+		s.absStr = false
+	}
 	if s.ct != nil && s.ct.Opts["nonilcheck"] != "" {
 		s.nilcheck = false
+	}
+	if s.ct != nil {
+		for _, a := range s.ct.Asserts {
+			a.seen = false
+		}
 	}
 	s.collectDebugRefs()
 	s.assignOrdinals()
@@ -839,6 +900,13 @@ func (s *Sess) run() {
 		}
 	}
 	s.finish()
+	if s.ct != nil {
+		for _, a := range s.ct.Asserts {
+			if !a.seen {
+				s.unsupp("assert at %s#%d: no such call in the function", a.Callee, a.Ord)
+			}
+		}
+	}
 	s.coverCheck()
 	s.emitAxioms()
 }
